@@ -276,7 +276,7 @@ def bounded(sess: Session):
     from bounded import export_roundtrip as R
     out = R.sweep()
     k17 = [r for r in out if r[3] and r[0] == '1.0' and r[1] != '1.0' and
-           all(('sense-frame links' in p or 'database after re-adding' in p) for p in r[3])]
+           all(('sense-frame links' in p or p.startswith('K17-only:')) for p in r[3])]
     new = [r for r in out if r[3] and r not in k17]
     for src, exp, label, problems in new[:5]:
         sess.violation_direct(f'wn.export:bounded:{src}->{exp}:{label}', '; '.join(problems)[:1500],
